@@ -393,6 +393,71 @@ def ctor_param_cases(c, cls, gs, only=None):
     return out
 
 
+def special_probe_cases(only=None):
+    """Values of unusual but valid kinds for two guards whose documented domain is about the KIND of object:
+    Function.pointer -- any callable of one argument (a functools.partial, a bound method, an instance with __call__, also when the instance is
+    unhashable because its class defines __eq__); a callable of two arguments is rejected with the typed ArgumentError, whatever its kind;
+    Node.left / right / parent -- any Node, also the root of a chain thousands of levels deep (validating a link must not walk the tree)."""
+    import functools
+    out = []
+
+    class Eq1:
+        def __init__(self, k):
+            self.k = k
+
+        def __eq__(self, other):
+            return isinstance(other, Eq1) and other.k == self.k
+
+        def __call__(self, x):
+            return 0.0
+
+    class Eq2(Eq1):
+        def __call__(self, x, y):
+            return 0.0
+
+    class M:
+        def m1(self, x):
+            return 0.0
+
+        def m2(self, x, y):
+            return 0.0
+    probes = [('unhashable-object-1arg', lambda: Eq1(1), 'ok'), ('unhashable-object-2args', lambda: Eq2(1), 'ArgumentError'),
+              ('partial-1arg', lambda: functools.partial(f2, 1.0), 'ok'), ('partial-2args', lambda: functools.partial(f2), 'ArgumentError'),
+              ('bound-method-1arg', lambda: M().m1, 'ok'), ('bound-method-2args', lambda: M().m2, 'ArgumentError')]
+    for tag, mk, want in probes:
+        for via in ('setter', 'constructor'):
+            name = 'Function.pointer:%s:%s' % (tag, via)
+            if only and only != name:
+                continue
+            if via == 'setter':
+                f = Function(pointer=f1)
+                got = outcome(lambda: setattr(f, 'pointer', mk()))
+            else:
+                got = outcome(lambda: Function(pointer=mk()))
+            if got != want:
+                out.append({'name': name, 'cls': 'Function', 'attr': 'pointer', 'probe': tag, 'via': via, 'observed': got, 'expected': want})
+    for depth in (1500, 4000):
+        name = 'Node.links:deep-chain-%d' % depth
+        if only and only != name:
+            continue
+
+        def build_chain():
+            node = Node('x', 'TERMINAL', value=np.array([1.0]))
+            for k in range(depth):
+                up = Node('ABS', 'FUNCTION')
+                up.left = node
+                node.parent = up
+                node = up
+            top = Node('SUM', 'FUNCTION', left=node, right=Node('y', 'TERMINAL', value=np.array([2.0])))
+            node.parent = top
+            return top
+        got = outcome(build_chain)
+        if got != 'ok':
+            out.append({'name': name, 'cls': 'Node', 'attr': 'left/right/parent', 'probe': 'deep-chain-%d' % depth, 'via': 'setter',
+                        'observed': got, 'expected': 'ok'})
+    return out
+
+
 def fresh(tpl):
     o = copy.copy(tpl)                    # new instance, same attribute objects
     o.__dict__ = dict(tpl.__dict__)
@@ -748,6 +813,10 @@ def main():
                 res['ctor'].append({'cls': c['name'], 'out': hlib.exc_kind(ex), 'msg': repr(ex)[:200]})
             hlib.emit(res)
             return
+        if only.get('kind') == 'special':
+            res['special'] = special_probe_cases(only.get('name'))
+            hlib.emit(res)
+            return
         if only.get('kind') == 'ctorparam':
             res['ctorparam'] = ctor_param_cases(c, cls, guards_of(c['name']), only)
             hlib.emit(res)
@@ -776,6 +845,7 @@ def main():
         hlib.emit(res)
         return
 
+    res['special'] = special_probe_cases()
     for c in info['classes']:
         gs = guards_of(c['name'])
         if not gs:
